@@ -63,6 +63,43 @@ def check(ctx):
     W1 = ctx.rule("W1", "template variables: the hook data structs are serialised under the member names acmed.toml(5) documents, none conditional")
     from .wire_shape import check_shapes
     check_shapes(ctx, W1, ["acmed::hooks::PostOperationHookData", "acmed::hooks::ChallengeHookData", "acmed::hooks::FileStorageHookData", "acmed::storage::CertFileFormat"])
+    post_operation_data_rule(ctx, W1)
+    call_rules(ctx)
+    order_rules(ctx)
+    file_bracketing(ctx)
+    env_rules(ctx)
+    template_rules(ctx)
+    doc_rules(ctx)
+
+
+def post_operation_data_rule(ctx, rid):
+    """the documented variables of a post-operation hook: certificate_path / private_key_path are the paths of the certificate file
+    and of the private-key file (each from its own storage getter), status / is_success are the caller's"""
+    prog = ctx.prog
+    pb = prog.async_body("acmed::certificate::Certificate::call_post_operation_hooks")
+    PD = "acmed::hooks::PostOperationHookData"
+    if pb is None or PD not in prog.adts:
+        return
+    aggs = agg_assigns(pb, PD)
+    ctx.floor(rid, "PostOperationHookData literal in call_post_operation_hooks", len(aggs), 1)
+    want = {"certificate_path": "get_certificate_path", "private_key_path": "get_keypair_path"}
+    for i, st in aggs:
+        fs = st["rv"]["fields"]
+        for fld, getter in want.items():
+            if fld not in fs:
+                continue
+            sl = origins(pb, st["rv"]["ops"][fs.index(fld)], through=True)
+            got = sorted({(x.name or x.res or "").split("::{closure")[0].rsplit("::", 1)[-1] for x in sl.calls if "storage::get_" in (x.name or x.res or "")})
+            ctx.require(rid, got == [getter], where(pb, i), "post-operation hook data: %s <- storage::%s (found %s)" % (fld, getter, got), ["call_post_operation_hooks", "field", fld])
+        for fld, leaf in (("status", "upvar:1"), ("is_success", "upvar:2")):
+            if fld in fs:
+                sl = origins(pb, st["rv"]["ops"][fs.index(fld)], through=True)
+                ctx.require(rid, sl.has_leaf(leaf), where(pb, i), "post-operation hook data: %s is the caller's argument" % fld, ["call_post_operation_hooks", "field", fld])
+
+
+def call_rules(ctx):
+    """hooks::call itself (shared with C07: a failing hook is a failing step — it must abort the sequence and reach the caller)"""
+    prog = ctx.prog
     R1 = ctx.rule("R1", "hooks::call: in slice order, filtered by type, one awaited call_single at a time, first error aborts")
     cb = prog.async_body(CALL)
     its = [c for c in cb.calls_to("core::slice::<impl [T]>::iter", "core::iter::traits::collect::IntoIterator::into_iter") if arg_origins(c, 0).has_leaf("upvar:1")]       # `hooks.iter()` / `for hook in hooks`
@@ -117,12 +154,6 @@ def check(ctx):
         for k_, exp_ in _HTAB.items():
             ctx.require(R1, tab_.get(k_) == exp_, "%s:%s" % (cb_.file, cb_.line), "%s: challenge hook type and clean hook type %s (expected %s)" % (k_, tab_.get(k_), exp_),
                         ["acmed::certificate::Certificate::call_challenge_hooks", "hook-table", k_])
-
-    order_rules(ctx)
-    file_bracketing(ctx)
-    env_rules(ctx)
-    template_rules(ctx)
-    doc_rules(ctx)
 
 
 def order_rules(ctx):
@@ -513,6 +544,32 @@ def child_io_rules(ctx, rid):
         ok_, hit = unreachable_without(b, [w.bb for w in waits], removed_nodes=drops + moved, start=c.bb)
         ctx.require(rid, ok_, c.where(), "the child's stdin taken out of the Child is closed (dropped) before the child is awaited — otherwise a hook reading to EOF never exits",
                     [SINGLE, "stdin-open-across-wait"])
+    # (c) a line buffer that `read_line` APPENDS to is emptied between two reads of the same loop (else line n is sent n times)
+    for c in b.calls:
+        if c.bb not in b.live_blocks() or (c.name or "").rsplit("::", 1)[-1] != "read_line" or "BufRead" not in (c.fn or c.name or "") or len(c.args) < 2:
+            continue
+        scc = b.scc_of(c.bb)
+        if scc is None:
+            continue
+        from ..panic_allow import _ref_place
+        bp = _ref_place(b, c.args[1])
+        if bp is None:
+            continue
+        sset = set(scc)
+        cleared = False
+        for x in b.calls:
+            if x.bb in sset and (x.name or "").rsplit("::", 1)[-1] in ("clear", "truncate", "drain", "take") and x.args:
+                xp = _ref_place(b, x.args[0])
+                if xp is not None and xp["l"] == bp["l"]:
+                    cleared = True
+        for i_ in sset:
+            for st in b.blocks[i_]["stmts"]:
+                if st["s"] == "assign" and st["lhs"]["l"] == bp["l"] and not st["lhs"]["p"]:
+                    cleared = True            # the buffer is a fresh String in every turn
+            t_ = b.term(i_)
+            if t_["t"] == "call" and t_.get("dest") and t_["dest"]["l"] == bp["l"] and not t_["dest"]["p"]:
+                cleared = True
+        ctx.require(rid, cleared, c.where(), "the buffer `read_line` appends to is emptied (or re-created) in every turn of the loop that feeds the hook's stdin", [SINGLE, "stdin-line-buffer-not-cleared"])
     opens = [c for c in b.calls if c.bb in b.live_blocks() and (c.name or "") in ("std::fs::File::open", "tokio::fs::file::File::open")]
     for c in opens:
         sl = arg_origins(c, 0, through=True)
